@@ -69,7 +69,7 @@ CHECK_AFK_REUSE = False      # see POSSIBLE DEFECT above
 SCOPE = {
     'quick': 'marginalize, ablate, space, marginalize_annotations, ablate_annotations, apply_pairwise, apply_product: '
              'a fixed grid (1-3 model outputs x 0-2 extra args x 1-6 annotations / 1-5 shuffles / 1-4 spacing rows / '
-             'argument sets of sizes 1-4), a list of ~130 targeted corner cases (start 0 / last / None with rows of different '
+             'argument sets of sizes 1-4), a list of 162 targeted corner cases (start 0 / last / None with rows of different '
              'width, random_state 0, permuted alphabet, X int8/float32, int8 motifs, args of trailing shape ()/(1,)/(2,)/(2,2) '
              'and int64, list/tuple args, kwargs split over additional_func_kwargs, custom and dinucleotide shuffle_fn also '
              'in ablate_annotations, func-level random_state, duplicate / interleaved-span / whole-sequence annotations, '
@@ -79,7 +79,7 @@ SCOPE = {
              'func in {predict, deep_lift_shap, saturation_mutagenesis, a two-output func, a list-output func, marginalize (products)}; '
              'every output entry compared with func on the single denoted input row (clones taken before the call), '
              'exact output shapes, models that refuse mis-shaped argument rows',
-    'thorough': 'as quick with the full grid outputs x args x annotations x func and 1200 seeded random cases per wrapper, '
+    'thorough': 'as quick (same targeted corner cases and input dimensions) with the full grid outputs x args x annotations x func and 1200 seeded random cases per wrapper, '
                 '1-5 examples, up to 3 argument sets in products',
 }
 
@@ -764,6 +764,31 @@ def _pooled(rng, n_idx, spans, A):
     return [[rng.randrange(n_idx)] + list(rng.choice(spans)) for _ in range(A)]
 
 
+def _dinuc_accepts(case):
+    """dinucleotide_shuffle refuses a region whose shuffles all coincide (data dependent)"""
+    rs, X, args, model = _build(case)
+    spans = [(slice(None), case['start'], case['end'])] if case['kind'] == 'ablate' else \
+        [(slice(i, i + 1), s, e) for i, s, e in case['annotations']]
+    try:
+        for rows, s, e in spans:
+            ersatz.dinucleotide_shuffle(X[rows], start=s, end=e, n=case['n_shuf'], random_state=case['rseed'])
+    except ValueError:
+        return False
+    return True
+
+
+def _settle_dinuc(case, tries=8):
+    """move to the next data seed that dinucleotide_shuffle accepts (else fall back to the default shuffle_fn)"""
+    if case.get('shuffle_fn') != 'dinuc':
+        return case
+    for _ in range(tries):
+        if _dinuc_accepts(case):
+            return case
+        case['seed'] += 1
+    del case['shuffle_fn']
+    return case
+
+
 def _random_case(rng, kind, thorough, k):
     n = rng.randint(1, 5 if thorough else 4)
     L = rng.randint(6, 12)
@@ -880,7 +905,7 @@ def _random_case(rng, kind, thorough, k):
         case.update(sizes=sizes, n_args=len(sizes))
     if kind in ('pairwise', 'product') and func == 'marginalize' and rng.random() < 0.5:
         case['pstart'] = rng.randint(0, L - 2)
-    return case
+    return _settle_dinuc(case)
 
 
 def _grid(thorough):
@@ -1073,6 +1098,7 @@ def _corners(thorough):
     for c in cases:
         for k in [k for k, v in c.items() if v is None and k != 'start']:
             del c[k]
+        _settle_dinuc(c)
     return _uniq(cases)
 
 
